@@ -69,6 +69,99 @@ def run_variant(v: dict) -> dict:
 LAST: dict = {}
 
 
+# ---------------------------------------------------------------------------------------------------------------------
+# whole-tree behaviour-neutral transformations: every check must stay silent on the transformed copy
+
+
+def _unparse_all(root: pathlib.Path):
+    """Re-emit every module from its AST: drops comments, blank lines, parentheses, quoting and line structure."""
+    import ast
+
+    for f in (root / "src" / "typelib").rglob("*.py"):
+        f.write_text(ast.unparse(ast.parse(f.read_text())) + "\n")
+
+
+def _rename_locals(root: pathlib.Path):
+    """Alpha-rename every local variable of every function (not parameters, not names declared global/nonlocal,
+    not names captured by nested functions)."""
+    import ast
+
+    class Rn(ast.NodeTransformer):
+        def visit_FunctionDef(self, node):
+            for i, ch in enumerate(node.body):
+                node.body[i] = self.visit(ch)
+            params = {a.arg for a in node.args.posonlyargs + node.args.args + node.args.kwonlyargs}
+            if node.args.vararg:
+                params.add(node.args.vararg.arg)
+            if node.args.kwarg:
+                params.add(node.args.kwarg.arg)
+            stores, banned = set(), set()
+            nested_reads = set()
+            for n in ast.walk(node):
+                if isinstance(n, (ast.Global, ast.Nonlocal)):
+                    banned |= set(n.names)
+                if isinstance(n, (ast.FunctionDef, ast.Lambda, ast.ClassDef)) and n is not node:
+                    for m in ast.walk(n):
+                        if isinstance(m, ast.Name):
+                            nested_reads.add(m.id)
+                    if hasattr(n, "name"):
+                        banned.add(n.name)
+                if isinstance(n, (ast.ListComp, ast.SetComp, ast.DictComp, ast.GeneratorExp)):
+                    pass
+            def own(n):
+                return True
+            for n in ast.walk(node):
+                if isinstance(n, ast.Name) and isinstance(n.ctx, ast.Store):
+                    stores.add(n.id)
+                if isinstance(n, ast.ExceptHandler) and n.name:
+                    banned.add(n.name)
+                if isinstance(n, (ast.Import, ast.ImportFrom)):
+                    for a in n.names:
+                        banned.add((a.asname or a.name).split(".")[0])
+            targets = {x for x in stores if x not in params and x not in banned and x not in nested_reads and not x.startswith("__")}
+            if not targets:
+                return node
+
+            class Sub(ast.NodeTransformer):
+                def visit_Name(self, n):
+                    if n.id in targets:
+                        return ast.copy_location(ast.Name(id=n.id + "_rn", ctx=n.ctx), n)
+                    return n
+
+                def visit_FunctionDef(self, n):
+                    return n if n is not node else self.generic_visit(n)
+
+                visit_Lambda = visit_ClassDef = lambda self, n: n
+
+            return Sub().visit(node)
+
+    for f in (root / "src" / "typelib").rglob("*.py"):
+        tree = ast.parse(f.read_text())
+        tree = Rn().visit(tree)
+        ast.fix_missing_locations(tree)
+        f.write_text(ast.unparse(tree) + "\n")
+
+
+GLOBAL_TRANSFORMS = {"unparse-every-module": _unparse_all, "alpha-rename-every-local": _rename_locals}
+
+
+def run_global(name: str) -> dict:
+    root = pathlib.Path(tempfile.mkdtemp(prefix="tlverif-global-"))
+    try:
+        shutil.copytree(model.repo_root() / "src", root / "src")
+        GLOBAL_TRANSFORMS[name](root)
+        for f in (root / "src" / "typelib").rglob("*.py"):
+            compile(f.read_text(), str(f), "exec")
+        env = dict(os.environ, TLVERIF_REPO=str(root), TLVERIF_NO_EVIDENCE="1")
+        r = subprocess.run([sys.executable, "-m", "tlverif", "all", "--tier", "quick"], cwd=HERE.parent, env=env, capture_output=True, text=True)
+        bad = [ln for ln in (r.stdout + r.stderr).splitlines() if ln.startswith(("VIOLATION", "UNDECIDED", "ANALYSIS-ERROR"))]
+        if r.returncode != 0 or bad:
+            return {"id": "global:" + name, "ok": False, "why": f"whole-tree neutral transformation raised an alarm (exit {r.returncode})", "out": "\n".join(bad[:12])}
+        return {"id": "global:" + name, "ok": True}
+    finally:
+        shutil.rmtree(root, ignore_errors=True)
+
+
 def main(jobs: int = 16, only: str | None = None, strict: bool = True) -> int:
     """strict=False (thorough tier of a check): variants whose anchor text is gone from the tree under analysis are
     skipped and reported, not failed — the tree may have been edited since the variant library was written."""
@@ -81,8 +174,11 @@ def main(jobs: int = 16, only: str | None = None, strict: bool = True) -> int:
         return 0
     res = []
     with cf.ThreadPoolExecutor(max_workers=jobs) as ex:
+        futs = [ex.submit(run_global, g) for g in GLOBAL_TRANSFORMS] if only is None else []
         for r in ex.map(run_variant, vs):
             res.append(r)
+        for fu in futs:
+            res.append(fu.result())
     stale = [r for r in res if r.get("stale")]
     bad = [r for r in res if not r["ok"] and (strict or not r.get("stale"))]
     for r in stale:
